@@ -5,16 +5,18 @@
 package main
 
 import (
+	"errors"
 	"fmt"
 	"sort"
 	"strings"
 
 	"github.com/openconfig/gnmi/ctree"
 	"github.com/openconfig/gnmi/zzverif/seqmc"
+	"github.com/openconfig/gnmi/zzverif/vrt"
 )
 
 type opT struct {
-	kind string // add, del, delc, walkdel, upd
+	kind string // add, del, delc, walkdel, upd, walkstop, sortedstop, querystop
 	path []string
 	val  string
 }
@@ -32,6 +34,12 @@ func (o opT) String() string {
 		return fmt.Sprintf("DeleteConditional(%s,==%s)", p, o.val)
 	case "walkdel":
 		return fmt.Sprintf("WalkDeleted(%s,==%s)", p, o.val)
+	case "walkstop":
+		return fmt.Sprintf("Walk(callback fails at leaf %s)", o.val)
+	case "sortedstop":
+		return fmt.Sprintf("WalkSorted(callback fails at leaf %s)", o.val)
+	case "querystop":
+		return fmt.Sprintf("Query(%s, callback fails at leaf %s)", p, o.val)
 	}
 	return "?"
 }
@@ -51,6 +59,18 @@ func seqs(alpha []string, maxLen int) [][]string {
 	}
 	return out
 }
+
+// visits cut short by a failing callback (the read-only operations must
+// leave nothing behind: the tree still behaves as a map afterwards)
+var stopOps = []opT{
+	{"walkstop", nil, "1"}, {"walkstop", nil, "2"},
+	{"sortedstop", nil, "1"}, {"sortedstop", nil, "2"},
+	{"querystop", []string{"*"}, "1"}, {"querystop", []string{"a"}, "2"},
+}
+
+type zeroChooser struct{}
+
+func (zeroChooser) Choose(n int, costs []uint8, sig uint64) int { return 0 }
 
 type alphabet struct {
 	paths    [][]string
@@ -72,6 +92,7 @@ func mkAlphabet(elems []string, pathLen, patLen int) *alphabet {
 	for _, q := range a.patterns {
 		a.ops = append(a.ops, opT{"del", q, ""}, opT{"delc", q, "v1"}, opT{"walkdel", q, "v2"})
 	}
+	a.ops = append(a.ops, stopOps...)
 	for _, o := range a.ops {
 		a.names = append(a.names, o.String())
 	}
@@ -117,6 +138,7 @@ func mkExplicit(paths, patterns []string) *alphabet {
 	for _, q := range a.patterns {
 		a.ops = append(a.ops, opT{"del", q, ""}, opT{"delc", q, "v1"}, opT{"walkdel", q, "v2"})
 	}
+	a.ops = append(a.ops, stopOps...)
 	for _, o := range a.ops {
 		a.names = append(a.names, o.String())
 	}
@@ -228,6 +250,60 @@ func (s *sys) Apply(i int) []seqmc.Violation {
 			l.Update(o.val)
 			s.m[key(o.path)] = o.val
 		}
+	case "walkstop", "sortedstop", "querystop":
+		failAt := 1
+		if o.val == "2" {
+			failAt = 2
+		}
+		stop := errors.New("stop")
+		seen := map[string]bool{}
+		n, bad := 0, ""
+		f := func(p []string, _ *ctree.Leaf, v interface{}) error {
+			n++
+			k := key(p)
+			if mv, ok := s.m[k]; !ok || mv != fmt.Sprint(v) || seen[k] {
+				bad = fmt.Sprintf("visited %s=%v (stored: %v, already visited: %v)", k, v, ok, seen[k])
+			}
+			seen[k] = true
+			if n == failAt {
+				return stop
+			}
+			return nil
+		}
+		matching := 0
+		for k := range s.m {
+			if o.kind != "querystop" || matches(o.path, unkey(k)) {
+				matching++
+			}
+		}
+		var err error
+		switch o.kind {
+		case "walkstop":
+			err = s.t.Walk(f)
+		case "sortedstop":
+			err = s.t.WalkSorted(f)
+		default:
+			err = s.t.Query(o.path, f)
+		}
+		want := matching
+		if want > failAt {
+			want = failAt
+		}
+		if bad != "" || n != want || (err != nil) != (matching >= failAt) {
+			return vio("aborted-visit", "%s: %d callbacks (expected %d of %d matching leaves), error=%v %s", o, n, want, matching, err, bad)
+		}
+		// the tree must still accept writers everywhere: a conditional delete
+		// that deletes nothing write-locks every node. It runs under the
+		// controlled scheduler (package ctree is instrumented), where a lock
+		// that can never be granted is reported instead of hanging.
+		res := vrt.Run(zeroChooser{}, vrt.Options{}, func() {
+			s.t.DeleteConditional([]string{}, func(interface{}) bool { return false })
+			s.t.Add([]string{"zz-probe"}, "v")
+		})
+		if res.Aborted != "" {
+			return vio("locks-left-behind", "after %s a writer can no longer lock the tree: %s %v", o, res.Aborted, res.Parked)
+		}
+		s.t.Delete([]string{"zz-probe"})
 	case "del", "delc", "walkdel":
 		cond := func(v string) bool { return true }
 		if o.kind != "del" {
